@@ -191,6 +191,13 @@ func c10RunConc(t rt.TB, c c10Conc) {
 					}
 				}
 			}
+			if class == "not-linearizable-with-concurrent-unsubscribe" && c.Subject.Kind != "unicast" && c10PerSubscriberOK(pm, history, logs) {
+				// Every subscriber taken alone has a linearizable history and all of them
+				// agree on the order of the values: what fails is only the atomicity of one
+				// broadcast ACROSS subscribers - an Unsubscribe took effect on its own
+				// subscriber while the subject was half-way through delivering one call.
+				class = "broadcast-not-atomic-under-concurrent-unsubscribe"
+			}
 			rt.Report(t, rt.Failure{Property: "C10", Check: "subject-concurrent", Op: name, Class: class, Msg: fmt.Sprintf("%s: prefix [%s], threads %v (repetition %d): no sequential order of the calls compatible with real time explains the subscribers' logs %v", name, opsString(c.Pre), threadsString(c.Threads), rep, logs), Case: c})
 			return
 		}
@@ -270,4 +277,57 @@ func TestC10_ConcurrentLinearizable(t *testing.T) {
 		}
 		rt.Case(caseKey("conc", k, opsString(pre), threadsString(threads)), busy >= 2, "concurrent:"+k.Kind, func() any { return c })
 	})
+}
+
+// c10PerSubscriberOK: the history projected on each subscriber (all publications,
+// that subscriber's Subscribe / Unsubscribe and its log) is linearizable, and any two
+// subscribers saw their common values in the same order.
+func c10PerSubscriberOK(pm porcupine.Model, history []porcupine.Operation, logs map[int][]model.Notif) bool {
+	for id := range logs {
+		var h []porcupine.Operation
+		for _, op := range history {
+			in := op.Input.(linIn)
+			switch {
+			case in.Read:
+				if in.Op.Id == id {
+					h = append(h, op)
+				}
+			case in.Op.K == 'S' || in.Op.K == 'U':
+				if in.Op.Id == id {
+					h = append(h, op)
+				}
+			default:
+				h = append(h, op)
+			}
+		}
+		if porcupine.CheckOperationsTimeout(pm, h, 5*time.Second) == porcupine.Illegal {
+			return false
+		}
+	}
+	pos := map[int]map[string]int{}
+	for id, l := range logs {
+		pos[id] = map[string]int{}
+		for i, n := range l {
+			pos[id][fmt.Sprint(n)] = i
+		}
+	}
+	for a := range logs {
+		for b := range logs {
+			if a >= b {
+				continue
+			}
+			var common []string
+			for _, n := range logs[a] {
+				if _, ok := pos[b][fmt.Sprint(n)]; ok {
+					common = append(common, fmt.Sprint(n))
+				}
+			}
+			for i := 1; i < len(common); i++ {
+				if pos[b][common[i-1]] > pos[b][common[i]] {
+					return false
+				}
+			}
+		}
+	}
+	return true
 }
